@@ -35,17 +35,18 @@ EXPLANATION = ("Exhaustive sub-space (both tiers): ALL pairs (G,H) on a shared n
                "map-renumbering (also into 100..2000) / re-rooting / fragment-shuffle / reversal / explicit-hydrogen rewritings plus hand-made "
                "reactions (two reacting hydrogens on one atom, H2, spectator H2, %10 ring closures, explicit proton), each both as a graph "
                "pair and through the instrumented string pipeline (kinds str-*: the graphs of rsmi_to_graph, the ITS, the preserve list and "
-               "the two graphs its_to_rsmi hands to GraphToMol, the two RWMol contents); MolToGraph.transform under all four flag "
+               "the two graphs its_to_rsmi hands to GraphToMol, the two RWMol contents), and with rsmi_to_its(explicit_hydrogen=True) "
+               "(kinds str-eh-*: the explicit-hydrogen ITS of h_to_explicit, then the same pipeline); MolToGraph.transform under all four flag "
                "combinations on fragments with atoms unmapped / maps duplicated; implicit_hydrogen + GraphToMol on synthetic graphs with "
                "explicit hydrogens. Theorems: round trip, union + order pair + difference, equivariance, refutation without the "
                "shared-node-set precondition; the same for every option value and both store modes, the exact effect of "
                "ignore_aromaticity on standard_order; closed form of MolToGraph.transform, implicit_hydrogen (hydrogen total preserved, "
-               "decrement once per preserved hydrogen), GraphToMol, the graphs its_to_rsmi writes; string round trip relative to a contract "
-               "on RDKit alone.")
+               "decrement once per preserved hydrogen), GraphToMol, the graphs its_to_rsmi writes, h_to_explicit on an ITS (as repaired by "
+               "/repo 61e730e); string round trip relative to a contract on RDKit alone.")
 TRUSTED_BASE = [
     "Coq 8.16.1 kernel + vm_compute (no native_compute); stdlib only",
     "hand-written models coq/model/C01_Model.v, C01_Opts.v (ITSConstruction options), C01_String.v (MolToGraph.transform, implicit_hydrogen, "
-    "GraphToMol, rsmi_to_its / its_to_rsmi glue; uses get_rc of C02_Model.v) tied to synkit/Graph/ITS/{its_construction,its_decompose}.py, "
+    "GraphToMol, h_to_explicit on an ITS, rsmi_to_its / its_to_rsmi glue; uses get_rc of C02_Model.v) tied to synkit/Graph/ITS/{its_construction,its_decompose}.py, "
     "synkit/IO/{chem_converter,mol_to_graph,graph_to_mol}.py, synkit/Graph/Hyrogen/_misc.py by the per-run correspondence",
     "harness encoders harness/gen/c01_enc.py, c01_str.py (nx graph / RDKit Mol -> Gallina literal, half-unit bond orders, injective element "
     "interning; attributes -> tok; monkeypatched recording of the graphs its_to_rsmi passes to GraphToMol and of the preserve set)",
@@ -83,7 +84,9 @@ LEVEL_TEXT = ("Machine-checked proof (Coq) over an executable model of ITSConstr
               "hydrogen total is preserved, decrement once per preserved hydrogen), GraphToMol up to the RWMol, and the string round trip "
               "its_to_rsmi(rsmi_to_its(r)) relative to a written-out contract on RDKit's reader/writer alone. Every model is compared with "
               "the Python code on every run, including the intermediate graphs recorded inside its_to_rsmi.")
-LEVEL_NOTE = ("RDKit (parse, sanitise, write) is a named premise (contract R1 of theorem C01_rsmi_pipeline), monitored by an independent-reading "
+LEVEL_NOTE = ("Defect found and repaired in this round: rsmi_to_its(explicit_hydrogen=True) double-counted hydrogens on the product side "
+              "(its_to_rsmi returned None for 346/346 corpus reactions), /repo commit 61e730e, regress corpus + known_findings.d/C01.json. "
+              "RDKit (parse, sanitise, write) is a named premise (contract R1 of theorem C01_rsmi_pipeline), monitored by an independent-reading "
               "oracle on the corpora, not verified; the string-level theorem covers reactions without explicit hydrogen atoms, reactions with "
               "explicit hydrogens are covered by the graph-level theorems plus the string oracle. node_attrs other than the default are not modelled.")
 
@@ -112,6 +115,8 @@ def impl(case):
     from synkit.Graph.ITS.its_construction import ITSConstruction
     from synkit.Graph.ITS.its_decompose import its_decompose
     k = case.get("kind", "")
+    if k.startswith("str-eh"):
+        return T.obs_pipeline_eh(case["rsmi"])
     if k.startswith("str-"):
         return T.obs_pipeline(case["rsmi"])
     if k == "m2g":
@@ -138,7 +143,7 @@ def coq_case(case):
     k = case.get("kind", "")
     try:
         if k.startswith("str-"):
-            return T.coq_pipeline(case["rsmi"]) if R.well_formed(case["rsmi"]) else None
+            return T.coq_pipeline(case["rsmi"], k.startswith("str-eh")) if R.well_formed(case["rsmi"]) else None
         if k == "m2g":
             return T.coq_m2g(case["smiles"], case["drop"], case["use"])
         if k == "ih":
@@ -265,7 +270,7 @@ def fold_spectator_h(A, B):
     return (na, ea), (nb, eb)
 
 
-def string_clauses(rsmi, G, H):
+def string_clauses(rsmi, G, H, explicit_hydrogen=False):
     """parser monitor + its_to_rsmi(rsmi_to_its(r)) ~ r; demanded only for balanced, fully and uniquely mapped reactions"""
     import networkx as nx
     from synkit.IO.chem_converter import rsmi_to_its, its_to_rsmi
@@ -281,7 +286,7 @@ def string_clauses(rsmi, G, H):
             dn = {k: (got.get(k), Y[0].get(k)) for k in set(got) | set(Y[0]) if got.get(k) != Y[0].get(k)}
             fails.append(dict(clause="parse-monitor", detail="%s graph of rsmi_to_graph differs from the independent RDKit reading: %r" % (side, dn)))
             return fails, True
-    back = its_to_rsmi(rsmi_to_its(rsmi))
+    back = its_to_rsmi(rsmi_to_its(rsmi, explicit_hydrogen=True)) if explicit_hydrogen else its_to_rsmi(rsmi_to_its(rsmi))
     if not isinstance(back, str) or back.count(">>") != 1:
         fails.append(dict(clause="string-roundtrip", detail="its_to_rsmi returned %r" % (back,)))
         return fails, True
@@ -350,7 +355,10 @@ def oracle(case):
     G, H = gh
     if case.get("kind", "").startswith("str-"):
         if R.well_formed(case["rsmi"]):
-            f2, _ = string_clauses(case["rsmi"], G, H)
+            f2, _ = string_clauses(case["rsmi"], G, H, case["kind"].startswith("str-eh"))
+            if case["kind"].startswith("str-eh"):
+                for f in f2:           # one defect, one key: rsmi_to_its(explicit_hydrogen=True) (see known_findings.d/C01.json)
+                    f["clause"] = "eh-" + f["clause"]
             fails += f2
         return fails[:3]
     if balanced_pair(G, H):
@@ -703,6 +711,9 @@ def gen_str(rsmi_cases, rng, n_exph):
     for c in rsmi_cases:
         if "rsmi" in c and "opts" not in c:
             cases.append(dict(kind="str-" + c["kind"], rsmi=c["rsmi"], src=c.get("src")))
+    for c in rsmi_cases:                                       # rsmi_to_its(explicit_hydrogen=True) on the corpus and one rewriting
+        if "rsmi" in c and "opts" not in c and c["kind"] in ("corpus", "rw-renum"):
+            cases.append(dict(kind="str-eh-" + c["kind"], rsmi=c["rsmi"], src=c.get("src")))
     pool = [c for c in rsmi_cases if c.get("kind") == "corpus"]
     rng.shuffle(pool)
     k = 0
@@ -733,6 +744,7 @@ def gen_str(rsmi_cases, rng, n_exph):
         cases.append(dict(kind="str-hand", rsmi=r, src="hand#%d" % i))
         cases.append(dict(kind="hand", rsmi=r, src="hand#%d" % i))
         cases.append(dict(kind="str-hand", rsmi=R.renumber_maps(r, rng), src="hand#%d-renum" % i))
+        cases.append(dict(kind="str-eh-hand", rsmi=r, src="hand#%d" % i))
     return cases
 
 
